@@ -158,7 +158,10 @@ class queue : public interface
 {
 public:
 	queue(size_t = 0);
+	queue(const queue &);
 	virtual ~queue();
+	
+	queue & operator=(const queue &);
 	
 	/* IODevice interface */
 	ssize_t write(size_t , const void *, size_t) __MPT_OVERRIDE;
